@@ -96,8 +96,8 @@ func runD(raw json.RawMessage) *core.Violation {
 		if left == 0 {
 			break
 		}
-		if ids := fx.LeakedMutexes(60 * time.Millisecond); len(ids) > 0 {
-			// a mutex nobody releases for 60 ms while handlers still have to finish
+		if ids := fx.LeakedMutexes(time.Second); len(ids) > 0 {
+			// a mutex nobody releases for a second while handlers still have to finish
 			still := 0
 			for _, m := range victims {
 				if id, _ := fx.ClientByAddr(m.c.Local); id != "" {
